@@ -25,6 +25,7 @@ type RecvHistory struct {
 	IDs        []int    `json:"ids"`  // identity of each arrival (duplicates share an id)
 	Orig       []int    `json:"orig"` // position in the sender's stream, -1 after a restart marker
 	ReportAt   []int    `json:"report_at,omitempty"`
+	E2E        string   `json:"e2e,omitempty"` // end-to-end path (e2e.go): client-udp | client-tcp | server-udp | server-tcp
 }
 
 type recvStepOut struct {
@@ -379,12 +380,42 @@ func recvPassedByFlush(h *RecvHistory, i int) bool {
 	return false
 }
 
-func genRecvHistory(c *corr.Ctx) *RecvHistory {
+func genRecvHistory(c *corr.Ctx) *RecvHistory { return genRecvHistoryWith(c, 0) }
+
+// recvUnit runs the real receiver on the arrival history and returns what it delivers in total
+// (the reference of the end-to-end layer; the run itself is checked by recvRun on the same history).
+func recvUnit(h *RecvHistory) e2eExpect {
+	rr := &rtpreceiver.Receiver{ClockRate: 90000, UnrealiableTransport: h.Unreliable, BufferSize: h.Size, Period: time.Hour,
+		TimeNow: func() time.Time { return time.Unix(1000, 0) }, WritePacketRTCP: func(rtcp.Packet) {}}
+	if err := rr.Initialize(); err != nil {
+		panic(err)
+	}
+	defer rr.Close()
+	var e e2eExpect
+	for _, sq := range h.Seqs {
+		pkts, lost := rr.ProcessPacket2(&rtp.Packet{Header: rtp.Header{Version: 2, SequenceNumber: sq, SSRC: 7}, Payload: []byte{1}}, time.Unix(1000, 0), true)
+		for _, p := range pkts {
+			e.seqs = append(e.seqs, p.SequenceNumber)
+		}
+		e.lost += lost
+	}
+	if st := rr.Stats(); st != nil {
+		e.recv, e.last = st.Received, st.LastSequenceNumber
+	}
+	return e
+}
+
+// genRecvHistoryWith: forceSize != 0 fixes the buffer size (and unreliable mode) — the end-to-end
+// layer can only use the library's own buffer size.
+func genRecvHistoryWith(c *corr.Ctx, forceSize int) *RecvHistory {
 	r := c.Rng
 	sizes := []int{1, 2, 4, 8, 16, 32, 64, 128, 256, 512}
 	h := &RecvHistory{Unreliable: r.IntN(5) != 0, Size: sizes[r.IntN(len(sizes))]}
 	if r.IntN(3) == 0 {
 		h.Size = sizes[r.IntN(5)]
+	}
+	if forceSize != 0 {
+		h.Size, h.Unreliable = forceSize, true
 	}
 	n := 5 + r.IntN(120)
 	start := uint16(r.IntN(65536))
@@ -531,11 +562,18 @@ func genRecvHistory(c *corr.Ctx) *RecvHistory {
 
 // Run is the domain entry point.
 func Run(c *corr.Ctx) {
-	c.Rule("arrival histories derived from an ordered sender stream (random start incl. wrap positions) by loss, bounded displacement, duplication, restart, plus loss-free permutations in which no packet arrives before a packet BufferSize or more positions behind it (mode 6; the displacement clause must hold on these); sizes 1..512 (powers of two); reliable and unreliable; a case is non-trivial when it has more than one arrival; distinct = distinct op-line sequences")
+	c.Rule("arrival histories derived from an ordered sender stream (random start incl. wrap positions) by loss, bounded displacement, duplication, restart, plus loss-free permutations in which no packet arrives before a packet BufferSize or more positions behind it (mode 6; the displacement clause must hold on these); sizes 1..512 (powers of two); reliable and unreliable; a case is non-trivial when it has more than one arrival; distinct = distinct op-line sequences; plus an end-to-end layer (library Client from a scripted raw server, library Server in record mode from a raw publisher, UDP and TCP, BufferSize 64): same generator, every delivered packet must carry the content sent for its sequence number and the application must see what the receiver yields for the history")
 	if c.Replay != nil {
 		var h RecvHistory
 		if err := json.Unmarshal(c.Replay, &h); err != nil {
 			panic(err)
+		}
+		if h.E2E != "" {
+			env := &e2eEnv{}
+			defer env.close()
+			recvRun(c, cloneForUnit(&h), "replay-unit")
+			c.Guard("C14", "recv-e2e", &h, 60*time.Second, func() { e2eRun(c, env, &h, "replay") })
+			return
 		}
 		recvRun(c, &h, "replay")
 		return
@@ -626,4 +664,6 @@ func Run(c *corr.Ctx) {
 		}
 	}
 	c.Dist("enumerated-small-scope")
+	// end to end: the receiver behind the library's UDP listeners / TCP readers (e2e.go)
+	e2eAll(c)
 }
